@@ -207,9 +207,13 @@ theorem step_deliver {i : Nat} (h : step cfg s (.deliver i) = some s') :
     (s.execs i).stopped = false ∧ ∃ r q, (s.execs i).resultQ = r :: q ∧
       (((s.execs i).pending.lookup r.id = none ∧
           s' = { s with execs := upd s.execs i { s.execs i with resultQ := q, stopped := true } })
-       ∨ ∃ c, (s.execs i).pending.lookup r.id = some c ∧
-          s' = { answer s c r.out with
-            execs := upd s.execs i { s.execs i with resultQ := q, pending := (s.execs i).pending.erase (r.id, c) } }) := by
+       ∨ (∃ c err, (s.execs i).pending.lookup r.id = some c ∧ r.out = .error err ∧
+          s' = { answer s c (.error err) with
+            execs := upd s.execs i { s.execs i with resultQ := q, pending := (s.execs i).pending.erase (r.id, c) } })
+       ∨ (∃ c vi vp, (s.execs i).pending.lookup r.id = some c ∧ r.out = .value vi vp ∧
+          s' = { s with
+            phase := upd s.phase c (.responding (.value vi vp))
+            execs := upd s.execs i { s.execs i with resultQ := q, pending := (s.execs i).pending.erase (r.id, c) } })) := by
   simp only [step] at h
   split at h
   · cases h
@@ -221,7 +225,17 @@ theorem step_deliver {i : Nat} (h : step cfg s (.deliver i) = some s') :
       refine ⟨r, q, hq, ?_⟩
       split at h
       · rename_i hl; cases h; exact Or.inl ⟨hl, rfl⟩
-      · rename_i c hl; cases h; exact Or.inr ⟨c, hl, rfl⟩
+      · rename_i c hl
+        split at h
+        · rename_i err ho; cases h; exact Or.inr (Or.inl ⟨c, err, hl, ho, rfl⟩)
+        · rename_i vi vp ho; cases h; exact Or.inr (Or.inr ⟨c, vi, vp, hl, ho, rfl⟩)
+
+theorem step_respond {c : Nat} (h : step cfg s (.respond c) = some s') :
+    ∃ o, s.phase c = .responding o ∧ s' = answer s c (encode cfg c o) := by
+  simp only [step] at h
+  split at h
+  · rename_i o hp; cases h; exact ⟨o, hp, rfl⟩
+  · cases h
 
 /-! ### group E: every executor keeps its id bookkeeping -/
 
@@ -251,14 +265,18 @@ theorem execOk_step (a : Step) (h : ∀ i, ExecOk (s.execs i)) (hs : step cfg s 
     · exact (h i).finish w t _ _ (lookup_mem ht)
     · exact h j
   | deliver i =>
-    obtain ⟨_, r, q, hq, ⟨hl, rfl⟩ | ⟨c, hl, rfl⟩⟩ := step_deliver hs
+    obtain ⟨_, r, q, hq, ⟨hl, rfl⟩ | ⟨c, err, hl, _, rfl⟩ | ⟨c, vi, vp, hl, _, rfl⟩⟩ := step_deliver hs
     · -- KeyError branch: impossible, the result's id is in flight hence pending
       exfalso
       have : r.id ∈ inflight (s.execs i) := by simp [inflight, hq]
       exact lookup_none hl (((h i).fl_keys _).1 this)
+    · simp only [answer, upd]; split
+      · exact (h i).deliver r q c hq (lookup_mem hl)
+      · exact h j
     · simp only [upd]; split
       · exact (h i).deliver r q c hq (lookup_mem hl)
       · exact h j
+  | respond c => obtain ⟨_, _, rfl⟩ := step_respond hs; exact h j
 
 /-! ### group D: descriptor cache and lock -/
 
@@ -328,7 +346,7 @@ structure InvC (cfg : Config) (s : State) : Prop where
     ∨ (o = .error .notRunning ∧ hasFatal cfg = true)
   pend_phase : ∀ i id c, (id, c) ∈ (s.execs i).pending → s.phase c = .submitted i id
   pend_exp : ∀ i id c, (id, c) ∈ (s.execs i).pending →
-    expected cfg c = runModel i (entryOf cfg c) ∧ i = cfg.select (spec cfg c).app
+    expected cfg c = finalOf cfg c (runModel i (entryOf cfg c)) ∧ i = cfg.select (spec cfg c).app
   sub_pend : ∀ c i id, s.phase c = .submitted i id → (id, c) ∈ (s.execs i).pending
   task_data : ∀ i t c, (t ∈ (s.execs i).taskQ ∨ t ∈ (s.execs i).held.map (·.2)) →
     (t.id, c) ∈ (s.execs i).pending → t.entry = entryOf cfg c
@@ -338,16 +356,18 @@ structure InvC (cfg : Config) (s : State) : Prop where
   arrived_lt : ∀ c, s.phase c ≠ .fresh → c < cfg.callers.length
   done_ans : ∀ c, s.phase c = .done → ∃ o, (c, o) ∈ s.answers
   held_lt : ∀ i w t, (w, t) ∈ (s.execs i).held → w < cfg.workers
+  resp_ok : ∀ c o, s.phase c = .responding o → encode cfg c o = expected cfg c
 
 theorem InvC.init : InvC cfg Serving.init := by
   constructor <;> simp [Serving.init]
 
-/-- a caller moves between phases other than `submitted`/`done`; executors and answers untouched -/
+/-- a caller moves between phases other than `submitted`/`responding`/`done`; executors and answers untouched -/
 theorem InvC.phase_only (h : InvC cfg s) (c : Nat) (p : Phase)
     (he : s'.execs = s.execs) (ha : s'.answers = s.answers) (hp : s'.phase = upd s.phase c p)
     (h0 : ∀ i id, s.phase c ≠ .submitted i id) (h1 : s.phase c ≠ .done)
-    (h2 : ∀ i id, p ≠ .submitted i id) (h4 : p ≠ .done) (h3 : c < cfg.callers.length) : InvC cfg s' := by
-  obtain ⟨a1, a2, a3, a4, a5, a6, a7, a8, a9, a10, a11, a12⟩ := h
+    (h2 : ∀ i id, p ≠ .submitted i id) (h4 : p ≠ .done) (h5 : ∀ o, p ≠ .responding o)
+    (h3 : c < cfg.callers.length) : InvC cfg s' := by
+  obtain ⟨a1, a2, a3, a4, a5, a6, a7, a8, a9, a10, a11, a12, a13⟩ := h
   constructor <;> simp only [he, ha, hp, upd] <;> grind
 
 /-- a caller in a phase other than `submitted`/`done` is answered; executors untouched -/
@@ -356,7 +376,7 @@ theorem InvC.answered (h : InvC cfg s) (c : Nat) (o : Outcome)
     (h0 : ∀ i id, s.phase c ≠ .submitted i id) (h1 : s.phase c ≠ .done) (h3 : c < cfg.callers.length)
     (ho : o = expected cfg c ∨ (o = .error .missingApp ∧ cfg.locked = false)
       ∨ (o = .error .notRunning ∧ hasFatal cfg = true)) : InvC cfg s' := by
-  obtain ⟨a1, a2, a3, a4, a5, a6, a7, a8, a9, a10, a11, a12⟩ := h
+  obtain ⟨a1, a2, a3, a4, a5, a6, a7, a8, a9, a10, a11, a12, a13⟩ := h
   constructor <;> simp only [he, ha, hp, upd] <;> grind
 
 theorem InvC.submit (h : InvC cfg s) (hE : ∀ i, ExecOk (s.execs i)) (c : Nat)
@@ -368,9 +388,9 @@ theorem InvC.submit (h : InvC cfg s) (hE : ∀ i, ExecOk (s.execs i)) (c : Nat)
             started := true, next := (s.execs (cfg.select (spec cfg c).app)).next + 1,
             pending := ((s.execs (cfg.select (spec cfg c).app)).next, c) :: (s.execs (cfg.select (spec cfg c).app)).pending,
             taskQ := (s.execs (cfg.select (spec cfg c).app)).taskQ ++ [⟨(s.execs (cfg.select (spec cfg c).app)).next, entryOf cfg c⟩] } } := by
-  obtain ⟨a1, a2, a3, a4, a5, a6, a7, a8, a9, a10, a11, a12⟩ := h
+  obtain ⟨a1, a2, a3, a4, a5, a6, a7, a8, a9, a10, a11, a12, a13⟩ := h
   generalize hi : cfg.select (spec cfg c).app = i at *
-  have hx : expected cfg c = runModel i (entryOf cfg c) := by simp [expected, hk, hb, hi]
+  have hx : expected cfg c = finalOf cfg c (runModel i (entryOf cfg c)) := by simp [expected, hk, hb, hi]
   have e1 := (hE i).keys_lt
   have e2 := (hE i).fl_keys
   have fresh : ∀ c', ((s.execs i).next, c') ∉ (s.execs i).pending := by
@@ -399,7 +419,7 @@ theorem InvC.submit (h : InvC cfg s) (hE : ∀ i, ExecOk (s.execs i)) (c : Nat)
 theorem InvC.take (h : InvC cfg s) (i w : Nat) (t : Task) (q : List Task) (hq : (s.execs i).taskQ = t :: q)
     (hw : w < cfg.workers) :
     InvC cfg { s with execs := upd s.execs i { s.execs i with taskQ := q, held := (w, t) :: (s.execs i).held } } := by
-  obtain ⟨a1, a2, a3, a4, a5, a6, a7, a8, a9, a10, a11, a12⟩ := h
+  obtain ⟨a1, a2, a3, a4, a5, a6, a7, a8, a9, a10, a11, a12, a13⟩ := h
   constructor <;> simp only [upd] <;> grind
 
 theorem mem_inflight_held {e : Exec} {w : Nat} {t : Task} (h : (w, t) ∈ e.held) : t.id ∈ inflight e := by
@@ -415,7 +435,7 @@ theorem InvC.finish (h : InvC cfg s) (hE : ∀ i, ExecOk (s.execs i)) (i w : Nat
         held := (s.execs i).held.erase (w, t), resultQ := (s.execs i).resultQ ++ [⟨t.id, runModel i t.entry⟩],
         stopped := (s.execs i).stopped || decide (t.entry.kind = .fatal) } } := by
   obtain ⟨c, hc⟩ := mem_keys_iff.1 (((hE i).fl_keys _).1 (mem_inflight_held hm))
-  obtain ⟨a1, a2, a3, a4, a5, a6, a7, a8, a9, a10, a11, a12⟩ := h
+  obtain ⟨a1, a2, a3, a4, a5, a6, a7, a8, a9, a10, a11, a12, a13⟩ := h
   have hd : t.entry = entryOf cfg c := a7 i t c (Or.inr (List.mem_map.2 ⟨(w, t), hm, rfl⟩)) hc
   have hlt : c < cfg.callers.length := a10 c (by rw [a4 i _ c hc]; simp)
   have hf : t.entry.kind = .fatal → hasFatal cfg = true := fun hk => hasFatal_of_caller hlt (hd ▸ hk)
@@ -429,17 +449,37 @@ theorem nodup_of_map_fst (l : List (Nat × Nat)) (h : (l.map (·.1)).Nodup) : l.
     simp only [List.map_cons, List.nodup_cons, List.mem_map] at h ⊢
     exact ⟨fun hx => h.1 ⟨x, hx, rfl⟩, ih h.2⟩
 
-theorem InvC.deliver (h : InvC cfg s) (hE : ∀ i, ExecOk (s.execs i)) (i c : Nat) (r : Result) (q : List Result)
-    (hq : (s.execs i).resultQ = r :: q) (hm : (r.id, c) ∈ (s.execs i).pending) :
-    InvC cfg { answer s c r.out with
+/-- `Executor.run` resolves the pending future with an exception: the coroutine of `c` raises it -/
+theorem InvC.deliver_error (h : InvC cfg s) (hE : ∀ i, ExecOk (s.execs i)) (i c : Nat) (r : Result) (q : List Result)
+    (err : Err) (hq : (s.execs i).resultQ = r :: q) (hm : (r.id, c) ∈ (s.execs i).pending)
+    (ho : r.out = .error err) :
+    InvC cfg { answer s c (.error err) with
             execs := upd s.execs i { s.execs i with resultQ := q, pending := (s.execs i).pending.erase (r.id, c) } } := by
-  obtain ⟨a1, a2, a3, a4, a5, a6, a7, a8, a9, a10, a11, a12⟩ := h
+  obtain ⟨a1, a2, a3, a4, a5, a6, a7, a8, a9, a10, a11, a12, a13⟩ := h
   have hnd : (s.execs i).pending.Nodup := nodup_of_map_fst _ (hE i).keys_nodup
   have her : ∀ x, x ∈ (s.execs i).pending.erase (r.id, c) ↔ x ≠ (r.id, c) ∧ x ∈ (s.execs i).pending :=
     fun x => hnd.mem_erase_iff
   have hph := a4 i _ c hm
-  have hout : r.out = expected cfg c := by rw [(a5 i _ c hm).1]; exact a8 i r c (by simp [hq]) hm
+  have hout : Outcome.error err = expected cfg c := by
+    rw [(a5 i _ c hm).1, ← a8 i r c (by simp [hq]) hm, ho]; rfl
   constructor <;> simp only [answer, upd] <;> grind
+
+/-- `Executor.run` resolves the pending future with a value: the coroutine of `c` goes on to `respond` -/
+theorem InvC.deliver_value (h : InvC cfg s) (hE : ∀ i, ExecOk (s.execs i)) (i c : Nat) (r : Result) (q : List Result)
+    (vi vp : Nat) (hq : (s.execs i).resultQ = r :: q) (hm : (r.id, c) ∈ (s.execs i).pending)
+    (ho : r.out = .value vi vp) :
+    InvC cfg { s with
+            phase := upd s.phase c (.responding (.value vi vp))
+            execs := upd s.execs i { s.execs i with resultQ := q, pending := (s.execs i).pending.erase (r.id, c) } } := by
+  obtain ⟨a1, a2, a3, a4, a5, a6, a7, a8, a9, a10, a11, a12, a13⟩ := h
+  have hnd : (s.execs i).pending.Nodup := nodup_of_map_fst _ (hE i).keys_nodup
+  have her : ∀ x, x ∈ (s.execs i).pending.erase (r.id, c) ↔ x ≠ (r.id, c) ∧ x ∈ (s.execs i).pending :=
+    fun x => hnd.mem_erase_iff
+  have hph := a4 i _ c hm
+  have hlt : c < cfg.callers.length := a10 c (by rw [hph]; simp)
+  have hout : encode cfg c (.value vi vp) = expected cfg c := by
+    rw [(a5 i _ c hm).1, ← a8 i r c (by simp [hq]) hm, ho]; rfl
+  constructor <;> simp only [upd] <;> grind
 
 theorem invD_step (a : Step) (h : InvD cfg s)
     (hC : ∀ i id c, (id, c) ∈ (s.execs i).pending → s.phase c = .submitted i id)
@@ -474,13 +514,24 @@ theorem invD_step (a : Step) (h : InvD cfg s)
     obtain ⟨t, ht, rfl⟩ := step_finish hs
     exact h.frame rfl rfl (fun c' => Or.inl rfl)
   | deliver i =>
-    obtain ⟨_, r, q, hq, ⟨hl, rfl⟩ | ⟨c, hl, rfl⟩⟩ := step_deliver hs
+    obtain ⟨_, r, q, hq, ⟨hl, rfl⟩ | ⟨c, err, hl, _, rfl⟩ | ⟨c, vi, vp, hl, _, rfl⟩⟩ := step_deliver hs
     · exact h.frame rfl rfl (fun c' => Or.inl rfl)
     · have hf := hC i _ c (lookup_mem hl)
       refine h.frame rfl rfl (fun c' => ?_)
       by_cases e : c' = c
       · subst e; right; simp [answer, critical, hf]
       · left; simp [answer, upd, e]
+    · have hf := hC i _ c (lookup_mem hl)
+      refine h.frame rfl rfl (fun c' => ?_)
+      by_cases e : c' = c
+      · subst e; right; simp [critical, hf]
+      · left; simp [upd, e]
+  | respond c =>
+    obtain ⟨o, hf, rfl⟩ := step_respond hs
+    refine h.frame rfl rfl (fun c' => ?_)
+    by_cases e : c' = c
+    · subst e; right; simp [answer, critical, hf]
+    · left; simp [answer, upd, e]
   | desc c =>
     obtain ⟨h1, h2, h3, h4, h5, h6, h7, h8, h9⟩ := h
     rcases step_desc hs with ⟨hp, hl, hc, rfl⟩ | ⟨hp, hl, hc, rfl⟩ | ⟨hp, rfl⟩ | ⟨l, hp, rfl⟩ | ⟨u, hp, rfl⟩ | ⟨u, hp, hc, rfl⟩ | ⟨u, hp, hc, rfl⟩
@@ -497,16 +548,16 @@ theorem invC_step (a : Step) (h : InvC cfg s) (hE : ∀ i, ExecOk (s.execs i)) (
   cases a with
   | arrive c =>
     obtain ⟨hlt, hf, rfl⟩ := step_arrive hs
-    exact h.phase_only c .d0 rfl rfl rfl (by simp [hf]) (by simp [hf]) (by simp) (by simp) hlt
+    exact h.phase_only c .d0 rfl rfl rfl (by simp [hf]) (by simp [hf]) (by simp) (by simp) (by simp) hlt
   | desc c =>
     have hlt : ∀ p, s.phase c = p → p ≠ .fresh → c < cfg.callers.length := fun p hp hn => h.arrived_lt c (hp ▸ hn)
     rcases step_desc hs with ⟨hp, hl, hc, rfl⟩ | ⟨hp, hl, hc, rfl⟩ | ⟨hp, rfl⟩ | ⟨l, hp, rfl⟩ | ⟨u, hp, rfl⟩ | ⟨u, hp, hc, rfl⟩ | ⟨u, hp, hc, rfl⟩
-    · exact h.phase_only c _ rfl rfl rfl (by simp [hp]) (by simp [hp]) (by simp) (by simp) (hlt _ hp (by simp))
-    · exact h.phase_only c _ rfl rfl rfl (by simp [hp]) (by simp [hp]) (by simp) (by simp) (hlt _ hp (by simp))
-    · exact h.phase_only c _ rfl rfl rfl (by simp [hp]) (by simp [hp]) (by simp) (by simp) (hlt _ hp (by simp))
-    · exact h.phase_only c _ rfl rfl rfl (by simp [hp]) (by simp [hp]) (by simp) (by simp) (hlt _ hp (by simp))
-    · exact h.phase_only c _ rfl rfl rfl (by simp [hp]) (by simp [hp]) (by simp) (by simp) (hlt _ hp (by simp))
-    · exact h.phase_only c _ rfl rfl rfl (by simp [hp]) (by simp [hp]) (by simp) (by simp) (hlt _ hp (by simp))
+    · exact h.phase_only c _ rfl rfl rfl (by simp [hp]) (by simp [hp]) (by simp) (by simp) (by simp) (hlt _ hp (by simp))
+    · exact h.phase_only c _ rfl rfl rfl (by simp [hp]) (by simp [hp]) (by simp) (by simp) (by simp) (hlt _ hp (by simp))
+    · exact h.phase_only c _ rfl rfl rfl (by simp [hp]) (by simp [hp]) (by simp) (by simp) (by simp) (hlt _ hp (by simp))
+    · exact h.phase_only c _ rfl rfl rfl (by simp [hp]) (by simp [hp]) (by simp) (by simp) (by simp) (hlt _ hp (by simp))
+    · exact h.phase_only c _ rfl rfl rfl (by simp [hp]) (by simp [hp]) (by simp) (by simp) (by simp) (hlt _ hp (by simp))
+    · exact h.phase_only c _ rfl rfl rfl (by simp [hp]) (by simp [hp]) (by simp) (by simp) (by simp) (hlt _ hp (by simp))
     · refine h.answered c _ rfl rfl rfl (by simp [hp]) (by simp [hp]) (hlt _ hp (by simp)) ?_
       cases hlk : cfg.locked with
       | false => exact Or.inr (Or.inl ⟨rfl, rfl⟩)
@@ -530,11 +581,16 @@ theorem invC_step (a : Step) (h : InvC cfg s) (hE : ∀ i, ExecOk (s.execs i)) (
     obtain ⟨t, ht, rfl⟩ := step_finish hs
     exact h.finish hE i w t (lookup_mem ht)
   | deliver i =>
-    obtain ⟨_, r, q, hq, ⟨hl, rfl⟩ | ⟨c, hl, rfl⟩⟩ := step_deliver hs
+    obtain ⟨_, r, q, hq, ⟨hl, rfl⟩ | ⟨c, err, hl, ho, rfl⟩ | ⟨c, vi, vp, hl, ho, rfl⟩⟩ := step_deliver hs
     · exfalso
       have : r.id ∈ inflight (s.execs i) := by simp [inflight, hq]
       exact lookup_none hl (((hE i).fl_keys _).1 this)
-    · exact h.deliver hE i c r q hq (lookup_mem hl)
+    · exact h.deliver_error hE i c r q err hq (lookup_mem hl) ho
+    · exact h.deliver_value hE i c r q vi vp hq (lookup_mem hl) ho
+  | respond c =>
+    obtain ⟨o, hp, rfl⟩ := step_respond hs
+    refine h.answered c _ rfl rfl rfl (by simp [hp]) (by simp [hp]) (h.arrived_lt c (by simp [hp])) ?_
+    exact Or.inl (h.resp_ok c o hp)
 
 /-- the full invariant -/
 structure Inv (cfg : Config) (s : State) : Prop where
@@ -581,6 +637,8 @@ theorem cand_finish {i w : Nat} (hi : i ∈ instsOf cfg) (hw : w < cfg.workers) 
   simp [candidates, hi, hw]
 theorem cand_deliver {i : Nat} (hi : i ∈ instsOf cfg) : Step.deliver i ∈ candidates cfg (instsOf cfg) := by
   simp [candidates, hi]
+theorem cand_respond {c : Nat} (h : c < cfg.callers.length) : Step.respond c ∈ candidates cfg (instsOf cfg) := by
+  simp [candidates, h]
 
 theorem isSome_ne_none {α} {o : Option α} (h : o.isSome = true) : o ≠ none := by
   cases o <;> simp at h ⊢
@@ -624,6 +682,10 @@ theorem Inv.stuck_done (h : Inv cfg s) (hw : 1 ≤ cfg.workers) (hns : ∀ i, (s
       simp only [Serving.step, hp, hb] at this
       simp at this
       split at this <;> cases this
+  | responding o =>
+    exfalso
+    have := stuck_none hst (cand_respond hlt)
+    simp [Serving.step, hp] at this
   | submitted i id =>
     exfalso
     have hm := h.c.sub_pend c i id hp
@@ -663,6 +725,8 @@ theorem Inv.stuck_done (h : Inv cfg s) (hw : 1 ≤ cfg.workers) (hns : ∀ i, (s
       | cons r' q =>
         simp only [hq] at hs
         simp at hs
-        split at hs <;> cases hs
+        split at hs
+        · cases hs
+        · split at hs <;> cases hs
 
 end ForML.Serving
